@@ -1,6 +1,7 @@
 package controller
 
 import (
+	"github.com/markusressel/fan2go/internal/control_loop"
 	"github.com/markusressel/fan2go/internal/zzv"
 )
 
@@ -8,6 +9,7 @@ import (
 //zzv:bound E2 = same cycle: at most one PWM write, and it is pwmMap[findClosestDistinctTarget(request)] as recomputed by the real lookup (nearest-ness of that lookup is C12 N1/N3); PWM map with 2 (thorough 1..6) distinct keys
 //zzv:bound E3 = Inv re-established after the cycle, so the step composes to histories of any length
 //zzv:outside PWM maps with more distinct keys than the bound; control algorithms other than the three shipped ones; fans whose getters are not those of HwMonFan/FileFan/CmdFan
+//zzv:bound E0 = real PidControlLoop.Cycle for any target and current (int64), any gains, with the PID term util.PidLoop.Loop an arbitrary float64 (NaN/Inf included): the result is in 0..255 or MinInt64 (NaN on amd64); every other controller harness uses this summary for the PID algorithm
 //zzv:stub PID loop term (util.PidLoop.Loop) is an arbitrary float64 incl. NaN/Inf in the pid case (over-approximation of every gain, state and elapsed time)
 //zzv:inductive ZZ_C01_Cycle_Hwmon ZZ_C01_Cycle_Features ZZ_C01_Cycle_FileCmd
 
@@ -76,4 +78,13 @@ func ZZ_C01_Cycle_FileCmd() {
 	e := zzNewFan(kind, zzv.Bool("neverStop"), zzv.Bool("hasPwmFile"), false, zzv.Bool("hasRpmFile"), zzv.Int("devPwm"), 1, zzv.Int("devRpm"))
 	e.zzController(zzLoop(loop), zzv.Int("curveValue"), 2)
 	zzCycleObligations(e)
+}
+
+// The summary used for the PID algorithm in every controller harness, proved of the real code.
+func ZZ_C01_PidSummary() {
+	zzv.EnableHavoc("pid.loop")
+	l := control_loop.NewPidControlLoop(zzv.Float64("p"), zzv.Float64("i"), zzv.Float64("d"))
+	r := l.Cycle(zzv.Int("target"), zzv.Int("current"))
+	zzv.Record("cycle", r)
+	zzv.Assert(zzv.Or(zzv.And(r >= 0, r <= 255), r == -9223372036854775808), "E0.pid_cycle_summary")
 }
